@@ -148,6 +148,7 @@ fn c08_components() -> Value {
         "RAlias": {"allOf": [{"$ref": "#/components/schemas/RObj"}]},
         "RAliasPrim": {"allOf": [{"$ref": "#/components/schemas/RStr"}]},
         "ROneOf": {"oneOf": [{"type": "string"}, {"type": "integer"}]},
+        "ROneOf1": {"oneOf": [{"$ref": "#/components/schemas/RObj"}]},
         "RAllOf2": {"allOf": [{"$ref": "#/components/schemas/RObj"}, {"properties": {"b": {"type": "integer"}}}]}
     })
 }
@@ -178,6 +179,9 @@ fn c08_leaves() -> Vec<(String, Value)> {
     v.push(("enum".into(), json!({"type": "string", "enum": ["p", "q"]})));
     v.push(("oneOf".into(), json!({"oneOf": [{"type": "string"}, {"type": "integer"}]})));
     v.push(("anyOf".into(), json!({"anyOf": [{"type": "string"}, {"type": "integer"}]})));
+    // a union with one member is still a union (only a one-member allOf is transparent)
+    v.push(("oneOf1".into(), json!({"oneOf": [{"type": "string"}]})));
+    v.push(("anyOf1:ref".into(), json!({"anyOf": [{"$ref": "#/components/schemas/RObj"}]})));
     v.push(("allOf2".into(), json!({"allOf": [{"$ref": "#/components/schemas/RObj"}, {"$ref": "#/components/schemas/RMap"}]})));
     v.push(("notype".into(), json!({})));
     v.push(("notype:props".into(), json!({"properties": {"z": {"type": "string"}}})));
